@@ -99,6 +99,7 @@ type World struct {
 	slabLike  bool
 	refs      *RefTracker
 	forcePeek bool
+	noEvictIn bool
 	lastRoot  []byte   // bytes of the most recent root record (for adversarial values)
 	roots     [][]byte // every root record seen so far (older ones make the nastiest fragments)
 	nEvents   int
